@@ -1,6 +1,7 @@
 import RedoModel.Core.Main
 import RedoModel.Core.History
 import RedoModel.Lemmas.Deps
+import RedoModel.Lemmas.DepsSoundSpec
 /-!
 # C01 — No stale target after a successful redo-ifchange
 Property theorems only.
@@ -17,20 +18,10 @@ and against the full model on plain histories by the same check (tools/core_chec
 namespace C01
 open RedoModel.Deps
 
-/-- "Has the content a from-scratch build would produce", for the full model: a file redo does not
-own stands for itself; a target's content is its chosen script applied to the up-to-date contents of
-what it reads. -/
-inductive UpToDate (w : World) : Nat → Prop
-  | source {f} : (∀ c ∈ w.rules f, existsF w c = false) → UpToDate w f
-  | user {f} : (w.recs f).isGenerated = false → existsF w f = true → UpToDate w f
-  | target {t dof sc n} :
-      (findDoFile t (w.rules t) w).1 = some dof → w.fs dof = some n → w.progs n.content = some sc →
-      (∀ c ∈ sc.ifchange, ∀ d ∈ c, UpToDate w d) →
-      (w.fs t).map (·.content) =
-        (if sc.outMode = 2 then none else some (outContent sc.tag (sc.reads.map (fun f => (w.fs f).map (·.content))))) →
-      UpToDate w t
-
 /-- The full statement of C01 for the full model, with the out-of-band defect repaired. -/
+/- `UpToDate` ("has the content a from-scratch build would produce") for the full model is defined in
+`Lemmas/DepsSoundSpec.lean`, together with the plain-history stage `NoStalePlain`. -/
+
 def no_stale_full : Prop :=
   ∀ (n : Nat) (rules : Nat → List Nat) (ops : List UserOp) (ts : List Nat) (kg : Bool),
     let w := (ops.foldl (fun w op => (applyOp {} n op w).2) (initWorld rules))
